@@ -32,7 +32,25 @@ impl Node {
 /// the columnar property store (unit columnar, C30): opaque here
 #[verifier::external_body]
 pub struct ColumnStore { c: u8 }
+/// PropertyValue: opaque
+#[verifier::external_body]
+pub struct PropertyValue { v: u8 }
+impl Clone for PropertyValue {
+    #[verifier::external_body]
+    fn clone(&self) -> (r: Self) ensures r == *self { unimplemented!() }
+}
+pub uninterp spec fn props_insert(m: PropertyMap, k: Seq<char>, v: PropertyValue) -> PropertyMap;
+impl PropertyMap {
+    #[verifier::external_body]
+    pub fn new() -> (r: Self) ensures r == default_props() { unimplemented!() }
+    #[verifier::external_body]
+    pub fn insert(&mut self, k: String, v: PropertyValue) -> (r: Option<PropertyValue>)
+        ensures *final(self) == props_insert(*old(self), k@, v)
+    { unimplemented!() }
+}
 impl ColumnStore {
+    #[verifier::external_body]
+    pub fn set_property(&mut self, idx: usize, key: &str, value: PropertyValue) { unimplemented!() }
     #[verifier::external_body]
     pub fn remove_property(&mut self, idx: usize, key: &str) { unimplemented!() }
 }
@@ -169,6 +187,16 @@ pub fn values_filter_map_min<'a, K, V: 'a, F: FnMut(&&'a V) -> bool, G: FnMut(&'
         None => forall|k: K| #[trigger] m@.contains_key(k) ==> fpass(f, m@[k], false),
     }
 { m.values().filter(f).map(g).min() }
+/// `m.entry(k).or_insert_with(f)` (A-STD; wrapper body is the original expression): a mutable reference to the value
+/// under k, inserted first (as f()) when k was absent; nothing else changes
+#[verifier::external_body]
+pub fn map_entry_or_insert_with<'a, K: Eq + std::hash::Hash, V, F: FnOnce() -> V>(m: &'a mut HashMap<K, V>, k: K, f: F) -> (r: &'a mut V)
+    requires f.requires(())
+    ensures
+        old(m)@.contains_key(k) ==> *r == old(m)@[k],
+        !old(m)@.contains_key(k) ==> f.ensures((), *r),
+        final(m)@ == old(m)@.insert(k, *final(r)),
+{ m.entry(k).or_insert_with(f) }
 /// R13 helpers (A-STD): a snapshot of a map's keys, each key once; get_mut of a key known to be present
 #[verifier::external_body]
 pub fn map_keys_snapshot<K: Copy + Eq + std::hash::Hash, V>(m: &HashMap<K, V>) -> (r: Vec<K>)
@@ -206,8 +234,10 @@ impl EdgeId {
 //@item type TxnId
 //@enum TxnStatus derive=Clone,Copy,PartialEq,Eq,Structural
 //@struct Transaction
+//@enum GraphError
+//@item type GraphResult
 //@struct EdgeVersionEntry
-//@struct GraphStore keep=nodes,current_version,active_transactions,edge_version_log,edge_properties,edge_endpoints,edge_type_ids,edge_type_table,node_columns
+//@struct GraphStore keep=nodes,current_version,active_transactions,edge_version_log,edge_properties,edge_endpoints,edge_type_ids,edge_type_table,node_columns,edge_columns
 
 // =====================================================================
 // spec vocabulary: version chains and versioned reads
@@ -387,6 +417,14 @@ pub proof fn lemma_edrop_prefix(l: Seq<EdgeVersionEntry>, idx: int, m: u64)
             assert(d[j] == l[j + idx]);
         }
     }
+}
+/// an entry stamped above v at the end of a log is invisible to a read at v
+pub proof fn lemma_elast_ignores_newer_last(l: Seq<EdgeVersionEntry>, x: EdgeVersionEntry, v: u64)
+    requires x.version > v
+    ensures elast(l.push(x), v) == elast(l, v), elast(l, v) >= 0 ==> l.push(x)[elast(l, v)] == l[elast(l, v)]
+{
+    assert(l.push(x).drop_last() =~= l);
+    lemma_elast(l, v);
 }
 pub proof fn lemma_esame_refl(a: Seq<EdgeVersionEntry>, m: u64) ensures esame(a, a, m) {}
 
@@ -616,6 +654,68 @@ impl GraphStore {
         }
 //@end
 
+
+    /// every log entry is stamped at or below the current version, oldest first
+    pub open spec fn elogs_stamped(&self) -> bool {
+        Self::elogs_sorted(self.edge_version_log@)
+        && forall|e: EdgeId, k: int| #![trigger self.edge_version_log@[e]@[k]] self.edge_version_log@.contains_key(e) && 0 <= k < self.edge_version_log@[e]@.len()
+            ==> self.edge_version_log@[e]@[k].version <= self.current_version
+    }
+    /// nothing but the edge property stores changed
+    pub open spec fn same_but_edge_props(&self, o: &GraphStore) -> bool {
+        self.nodes@ == o.nodes@ && self.current_version == o.current_version && self.active_transactions@ == o.active_transactions@
+            && self.edge_endpoints@ == o.edge_endpoints@ && self.edge_type_ids@ == o.edge_type_ids@ && self.edge_type_table@ == o.edge_type_table@
+    }
+
+//@fn GraphStore::set_edge_property_sparse props=C07
+//@ensures
+        final(self).same_but_edge_props(old(self)) && final(self).edge_version_log@ == old(self).edge_version_log@,      //#frame
+        forall|e2: EdgeId| e2 != edge_id ==> final(self).edge_properties@.contains_key(e2) == old(self).edge_properties@.contains_key(e2)
+            && (old(self).edge_properties@.contains_key(e2) ==> #[trigger] final(self).edge_properties@[e2] == old(self).edge_properties@[e2]),   //#only_this_edge_s_properties_change
+//@atstart
+        proof { axiom_edgeid_key_model(); }
+//@replace "self.edge_properties.entry(edge_id).or_insert_with(" => "map_entry_or_insert_with(&mut self.edge_properties, edge_id, " :: hash_map::Entry::or_insert_with has no Verus specification; wrapper body is the original expression
+//@end
+
+//@fn GraphStore::set_edge_property ret=r props=C07
+//@before "Ok(())"
+        proof {
+            let cv = old(self).current_version;
+            if old(self).edge_version_log@.contains_key(edge_id) {
+                let l0 = old(self).edge_version_log@[edge_id]@;
+                let l1 = self.edge_version_log@[edge_id]@;
+                assert forall|v: u64| v < cv implies elast(l1, v) == elast(l0, v) && (elast(l0, v) >= 0 ==> l1[elast(l0, v)] == l0[elast(l0, v)]) by {
+                    if l0.len() > 0 && l0.last().version == cv {
+                        assert(l1 =~= l0.drop_last().push(l1.last()));
+                        assert(l0 =~= l0.drop_last().push(l0.last()));
+                        lemma_elast_ignores_newer_last(l0.drop_last(), l1.last(), v);
+                        lemma_elast_ignores_newer_last(l0.drop_last(), l0.last(), v);
+                    } else {
+                        assert(l1 =~= l0.push(l1.last()));
+                        lemma_elast_ignores_newer_last(l0, l1.last(), v);
+                    }
+                }
+            }
+            assert forall|e2: EdgeId| e2 != edge_id implies #[trigger] self.elog(e2) == old(self).elog(e2) && self.cur_props(e2) == old(self).cur_props(e2) by {
+                let _ = self.edge_properties@[e2];
+            }
+        }
+//@requires
+        old(self).elogs_stamped(),
+//@ensures
+        final(self).same_but_edge_props(old(self)),                                                                     //#frame
+        forall|e2: EdgeId| e2 != edge_id ==> #[trigger] final(self).elog(e2) == old(self).elog(e2) && final(self).cur_props(e2) == old(self).cur_props(e2),   //#other_edges_untouched
+        final(self).elogs_stamped(),                                                                                    //#logs_stay_sorted_and_stamped
+        forall|v: u64| v < old(self).current_version ==>
+            #[trigger] eprops(final(self).elog(edge_id), final(self).cur_props(edge_id), old(self).current_version, v)
+                == eprops(old(self).elog(edge_id), old(self).cur_props(edge_id), old(self).current_version, v),        //#reads_below_current_version_unchanged
+        forall|v: u64| v < old(self).current_version && (old(self).elog(edge_id) matches Some(l) && elast(l, v) >= 0) ==>
+            #[trigger] eprops(final(self).elog(edge_id), final(self).cur_props(edge_id), old(self).current_version, v)
+                == eprops(old(self).elog(edge_id), old(self).cur_props(edge_id), old(self).current_version, v),        //#reads_resolved_by_a_log_entry_unchanged
+//@atstart
+        proof { axiom_edgeid_key_model(); }
+//@replace "self.edge_version_log.entry(edge_id).or_insert_with(" => "map_entry_or_insert_with(&mut self.edge_version_log, edge_id, " :: as above
+//@end
 
     /// transactions that are running: GC must not touch them
     pub open spec fn active_kept(a: Map<TxnId, Transaction>, b: Map<TxnId, Transaction>) -> bool {
